@@ -70,6 +70,19 @@ def impl_line(names, nsteps, cfgnames, z0_forcing):
             out += " %d,%d,%d" % (ds["tower_lat"].values[ti], ds["tower_lon"].values[ti], ds["tower_z"].values[ti])
         else:
             out += " N,N,N"
+    # label-based selection: which (tower, step) does ds.sel(...) return for every label, and for an absent one
+
+    def pick(kind, label):
+        try:
+            sub = ds.sel(**{kind: label})
+        except KeyError:
+            return "N"
+        v = int(np.asarray(sub["footprint"].values).ravel()[0])
+        if kind == "tower":
+            return str(names.index(v // 10000))
+        return str((v % 10000) // 100)
+    out += " seltower " + " ".join(pick("tower", str(s)) for s in list(ds["tower"].values) + ["T99999"])
+    out += " seltime " + " ".join(pick("time", str(s)) for s in list(ds["time"].values) + ["ts99999"])
     return out
 
 
@@ -119,6 +132,9 @@ def o_roundtrip(case):
             series.append(dict(grid=(X, Y, Z), conc=conc_a, flx=flx_a, tower_name=n, timestamp=ts,
                                params=dict(ustar=None if z0f else float(rng.uniform(0.1, 1)), mol=float(rng.normal() * 100), wind_speed=float(rng.uniform(1, 9)),
                                            wind_dir=float(rng.uniform(0, 360)), **({"z0": 0.07} if z0f else {}))))
+        if case.get("dup_ts") and case["str_ts"] and k == 0 and ns >= 2:
+            # a repeated label (the hour that occurs twice when daylight saving ends): arrays stay where they were put
+            series[ns - 1]["timestamp"] = series[0]["timestamp"]
         # all towers share the time axis labels of the first tower
         if k > 0:
             for t in range(ns):
@@ -146,6 +162,8 @@ def o_roundtrip(case):
                 got = ds[var].values[t, k]
                 if got.shape != r[key].shape or not np.array_equal(bits(got), bits(r[key])):
                     return fail("C18/array/%s" % var, "loaded %s at (time %d, tower %d) is not bit-identical to the saved one" % (var, t, k), None, "bit-identical", "differs", 0)
+            if [str(x["timestamp"]) for x in results[n]].count(str(r["timestamp"])) > 1:
+                continue        # a repeated label selects several steps: only the positional clauses apply
             sel = ds.sel(tower=n, time=str(r["timestamp"]))
             if not np.array_equal(bits(sel["footprint"].values), bits(r["flx"])):
                 return fail("C18/select", "selecting tower %s / step %s does not return that tower's and step's fields" % (n, r["timestamp"]), None, "that result", "another", 0)
@@ -197,8 +215,8 @@ def run(rng, tier, deep):
                     continue
                 run_oracle(st, o_roundtrip, dict(towers=nt, steps=ns, three_d=three_d, seed=int(rng.integers(1 << 30)),
                                                  str_ts=bool(rng.random() < 0.5), z0_forcing=bool(rng.random() < 0.4),
-                                                 mixed_dtype=bool(rng.random() < 0.5)))
+                                                 mixed_dtype=bool(rng.random() < 0.5), dup_ts=bool(rng.random() < 0.35)))
     return finish(st, "result sets over towers 1..4 x steps 1..4 x 2-D/3-D, values from adversarial float64 bit patterns (+-0, denormals, +-1e308, the default "
-                  "netCDF fill value, negatives), string and integer timestamps, ustar or z0 forcing, result sets mixing float32 and float64 entries; correspondence: which (tower, step) every dataset cell, label "
+                  "netCDF fill value, negatives), string and integer timestamps (incl. a repeated label), ustar or z0 forcing, result sets mixing float32 and float64 entries; correspondence: which (tower, step) every dataset cell, label "
                   "and metadata slot holds, vs the Lean assembly model; oracle: bit-identical arrays, ds.sel by name and label, coordinates, metadata, NaN for "
                   "missing ustar", deep, 0)
